@@ -214,7 +214,27 @@ def run_check(pid, tier, seed):
         cov = mod.extra(tier, seed, col.record)
         if cov:
             col.extra_cov.update(cov)
+    col.extra_cov["regression_replays"] = _replay_tier(pid, mod, col)
     return finish(pid, mod, tier, seed, col, t0, budget_hit)
+
+
+def _replay_tier(pid, mod, col):
+    """seconds-long tier: every committed replay file of this property (shrunk inputs of defects that have been
+    repaired, and of corrected false alarms) goes through check_case again, bypassing Hypothesis"""
+    import glob
+    n = 0
+    for p in sorted(glob.glob(os.path.join(VERIF, "replays", pid, "*.json"))):
+        try:
+            with open(p) as f:
+                d = json.load(f)
+            case = d["case"]
+        except Exception:
+            continue
+        res = mod.check_case(case)
+        res = dict(res, cls=list(res.get("cls", [])) + ["regression_replay"])
+        col.record(case, res)
+        n += 1
+    return n
 
 
 def finish(pid, mod, tier, seed, col, t0, budget_hit=False):
